@@ -7,6 +7,8 @@ META = {
 }
 FUNCTIONS = []
 LEMMAS = _r.spectrum_lemmas()
+# unit-agnostic arithmetic rests on Spectrum.to (sample() converts the operand): its lemmas are re-verified here
+LEMMAS = LEMMAS + [l for l in _r.spectrum_to_lemmas() if '+' not in l[0]]
 
 
 def bounded(tier, seed):
